@@ -194,7 +194,9 @@ theorem invD_step {s s' : State} {t : Nat} {l : Label} (h : Inv s) (hr : InvR s)
     unfold step at hs; rw [hph] at hs; simp only at hs
     split at hs
     · cases hs; dsame
-    · cases hs
+    · split at hs
+      · split at hs <;> (cases hs; dsame)
+      · cases hs
   | fin1 =>
     unfold step at hs; rw [hph] at hs; cases hs
     refine invD_update hd t rfl (Nat.le_refl _) (fun u hu => if_neg hu) (fun u hu => if_neg hu) ?_
@@ -363,13 +365,17 @@ theorem invD_call {s s' : State} {t : Nat} {op : Op} (hd : InvD s) (hc : call s 
 theorem invD_fireTill {s : State} (x : Nat) (hd : InvD s) : InvD (fireTill s x) :=
   ⟨hd.D3, hd.D4, fun u => shape_other (s := s) rfl rfl (fun _ _ hx => hx) (hd.DS u)⟩
 
+theorem invD_expire {s : State} (t : Nat) (hd : InvD s) : InvD (expire s t) :=
+  ⟨hd.D3, hd.D4, fun u => shape_other (s := s) rfl rfl (fun _ _ hx => hx) (hd.DS u)⟩
+
 theorem reach_invD {s : State} (h : sys.Reach s) : InvD s := by
   induction h with
   | init hi => cases hi; exact invD_init
   | env hr he ih =>
-    rcases he with ⟨t, op, hc⟩ | ⟨x, rfl⟩
+    rcases he with ⟨t, op, hc⟩ | ⟨x, rfl⟩ | ⟨x, rfl⟩
     · exact invD_call ih hc
     · exact invD_fireTill x ih
+    · exact invD_expire x ih
   | step hr hs ih =>
     have := reach_invR hr
     exact invD_step this.1 this.2 ih hs
